@@ -415,6 +415,11 @@ where
     }
 }
 
+fn reference_only() -> bool {
+    static F: std::sync::OnceLock<bool> = std::sync::OnceLock::new();
+    *F.get_or_init(|| std::env::var_os("VERIF_C07_REFERENCE_ONLY").is_some())
+}
+
 /// `light`: the 0..=3 sweep of the thorough tier runs calculate (with and without transforms) and
 /// the d_deg = -1 complex only; the accessor and d_deg = +1 variants are covered by the 0..=2 sweep.
 fn check_type<T>(run: &Run, cs: &Case<T::Ref>, light: bool)
@@ -423,8 +428,8 @@ where
     for<'x> &'x T: EucRingOps<T>,
     T::Ref: RefEuclid,
 {
-    if std::env::var_os("VERIF_C07_REFERENCE_ONLY").is_some() {
-        return; // development aid: cost of enumeration + reference alone
+    if reference_only() {
+        return; // development aid: cost of enumeration + reference alone (run is marked capped)
     }
     check_calc::<T>(run, cs, false);
     check_calc::<T>(run, cs, true);
@@ -578,6 +583,9 @@ where
 fn main() {
     let run = Run::new("C07", "exploration");
     let th = run.thorough();
+    if reference_only() {
+        run.cap("VERIF_C07_REFERENCE_ONLY set: no library call was made");
+    }
     let mut stats: Vec<(RingStats, usize, usize)> = vec![];
     let mut sweep_all = |maxdim: usize, thin: bool| {
         macro_rules! ring {
